@@ -53,10 +53,13 @@ Section Sign.
   Lemma pi0 : pi 0 = 0%nat.
   Proof. pose proof (Hpin 0%nat Hn) as H. simpl in H. apply Nat.eqb_eq in H. exact H. Qed.
 
-  Lemma SignT_ok : tysys_ok n Dm fmin (SignT flip) pi.
+  Lemma SignT_ok : tysys_ok n Dm fmin n Dm fmin (SignT flip) pi 1.
   Proof.
     constructor; simpl.
-    - exact Hperm.
+    - apply (perm_range n _ Hperm).
+    - apply (perm_sumlaw n _ Hperm).
+    - apply (perm_maxlaw n _ Hperm).
+    - apply (perm_minlaw n _ Hperm).
     - intros a b H. apply eqb_prop in H. subst; reflexivity.
     - reflexivity.
     - intros [|] [|]; simpl; lra.
@@ -77,14 +80,15 @@ Section Sign.
     - intros [|] b H x; simpl in *; [discriminate|]. injection H as <-. simpl.
       rewrite !Rmult_1_l. reflexivity.
     - intros [|] b H; simpl in *; [discriminate|]. injection H as <-. simpl. split; lra.
-    - intros a b H j k Hj Hk. injection H as <-. rewrite (HD j k Hj Hk).
-      destruct a, flip; simpl; lra.
-    - intros a b H. injection H as <-. reflexivity.
+    - intros a b H. injection H as <-. apply (perm_dphi n Dm pi Hperm).
+      intros j k Hj Hk. rewrite (HD j k Hj Hk). destruct a, flip; simpl; lra.
+    - intros a b H. injection H as <-. ring.
     - intros i a b H. destruct i; [|discriminate]. injection H as <-. split; [exact Hn|]. split; [apply pi0|reflexivity].
     - intros a b H. injection H as <-. split; [reflexivity|exact Hpin].
     - intros [|] b H v v' Hv; simpl in *; [discriminate|]. injection H as <-. simpl.
       rewrite Rmult_1_l. apply fmin_inv. intros j Hj. rewrite Hv by exact Hj. lra.
-    - exact fmin_zero.
+    - split; exact fmin_zero.
+    - tauto.
   Qed.
 End Sign.
 
@@ -142,7 +146,7 @@ Proof.
     - split; intros k; rewrite ?Hy; apply (Hz y Hy). }
   split.
   - intros x b Hin j Hj.
-    apply (check_outputs_sound n Dm fmin (SignT flip) pi OK (assoc_env Gin) p outs rho rho' HG Hc1 x b Hin j Hj).
+    apply (check_outputs_sound n Dm fmin n Dm fmin (SignT flip) pi 1 OK (assoc_env Gin) p outs rho rho' HG Hc1 x b Hin j Hj).
   - intros x Hin H0 j Hj.
-    apply (check_typed_sound n Dm fmin (SignT flip) pi OK (assoc_env Gin) p eqs rho rho' HG Hc2 x Hin H0 j Hj).
+    apply (check_typed_sound n Dm fmin n Dm fmin (SignT flip) pi 1 OK (assoc_env Gin) p eqs rho rho' HG Hc2 x Hin H0 j Hj).
 Qed.
